@@ -23,7 +23,7 @@ try:
     from props import _guards
 except ImportError:
     _guards = None
-from props import _predtable
+from props import _predtable, _identity
 
 
 def need(F, path):
@@ -135,3 +135,4 @@ def run(ctx, rep):
     if _guards is not None:
         _guards.run(F, rep, ctx)
     _predtable.run(F, rep, ctx)
+    _identity.run(F, rep)
